@@ -131,7 +131,7 @@ func targetsToRemove(graph *core.BuildGraph, filter, targets, targetsToKeep []co
 	ret := make(core.BuildLabels, 0, len(keepTargets))
 	retSrcs := []string{}
 	for _, target := range graph.AllTargets() {
-		if sibling := gcSibling(graph, target); !sibling.HasParent() && !keepTargets[sibling] && isIncluded(sibling, filter) {
+		if sibling := gcSibling(graph, target); !sibling.HasParent() && !keepTargets[sibling] && !keepTargets[target] && isIncluded(sibling, filter) {
 			ret = append(ret, target.Label)
 			for _, src := range target.AllLocalSourcePaths() {
 				if !keepSrcs[src] {
